@@ -307,7 +307,7 @@ def truncate_side_chain(txt, resnum):
     return '\n'.join(l for l in txt.split('\n') if l and not (l[:4] == 'ATOM' and int(l[22:26]) == resnum and l[12:16].strip() not in ('N', 'CA', 'C', 'O', 'CB'))) + '\n'
 
 
-def mk_serials_irrelevant(name, args=(), truncated_model=None):
+def mk_serials_irrelevant(name, args=(), truncated_model=None, moved_atom=None):
     def body(ctx):
         """atom serial numbers never influence predictions: the whole pipeline on a structure whose serials are
         replaced (descending, all equal, shuffled, in the hybrid-36 range, shifted by a symbolic offset) gives
@@ -316,7 +316,11 @@ def mk_serials_irrelevant(name, args=(), truncated_model=None):
         from . import micro as M
         text = M.text(name)
         schemes = ['descending', 'all-equal', 'shuffled-1', 'shuffled-2', 'hybrid36-range', 'interleaved']
-        if truncated_model is not None:
+        if moved_atom is not None:
+            # two MODELs with the same atoms, one atom displaced in the second (a bond closed in one model and open in the other)
+            text = M.models(text, M.moved(text, *moved_atom))
+            schemes = ['continued', 'restart-per-model'] + schemes
+        elif truncated_model is not None:
             # two MODELs, the second lacks the side chain of one residue (it is topped up from the first); numbering
             # continued through the file, or restarting in every MODEL as NMR ensembles are often written
             text = M.models(text, truncate_side_chain(text, truncated_model))
@@ -370,6 +374,10 @@ def obligations(tier):
                                     'propka/conformation_container.py:ConformationContainer.sort_atoms'],
                               bounds='micro-structure %s with its serial numbers replaced by 6 numbering schemes plus a symbolic offset in [0, 90000]' % name,
                               claim_doc='bonds, groups (incl. ligand group types), pKa values and determinants identical to the run on the file as numbered', max_paths=5000, split_input=('numbering', 6)))
+    obs.append(Obligation('O3-serials-never-influence[pair_CYS_CYS_bridge,MODEL2 with the disulfide open]', mk_serials_irrelevant('pair_CYS_CYS_bridge', moved_atom=(58, 'SG', (0.0, 3.0, 0.0))),
+                          code=['propka/atom.py:Atom.set_properties (numb)', 'propka/bonds.py:BondMaker.check_distance', 'propka/bonds.py:BondMaker.find_bonds_for_molecules_using_boxes', 'propka/run.py:single (whole pipeline)'],
+                          bounds='two-MODEL file from the disulfide micro-structure, one SG moved 3 A in MODEL 2; 8 numbering schemes (continued, restarting per MODEL, ...) plus a symbolic offset',
+                          claim_doc='bonds, groups, pKa values identical in every conformation and in the average for every numbering', max_paths=5000, split_input=('numbering', 8)))
     for name, res in ([('pair_GLU_ARG_TYR', 57)] if tier == 'quick' else [('pair_GLU_ARG_TYR', 57), ('pair_GLU_ARG_TYR', 35), ('pep8', 29), ('pair_ASP_ARG', 87)]):
         obs.append(Obligation('O3-serials-never-influence[%s,MODEL2 lacks side chain %d]' % (name, res), mk_serials_irrelevant(name, truncated_model=res),
                               code=['propka/atom.py:Atom.set_properties (numb)', 'propka/conformation_container.py:ConformationContainer.top_up_from_atoms', 'propka/molecular_container.py:MolecularContainer.top_up_conformations',
